@@ -264,8 +264,10 @@ func (vm *VM) callNative(fn *NativeFunction, numVariadic int8, shift StackShift,
 		panic(errNilPointer)
 	}
 
-	// Make a copy of the frame pointer.
+	// Make a copy of the frame pointer. It is restored also if the function
+	// panics, because a panic can be recovered by the calling function.
 	fp := vm.fp
+	defer func() { vm.fp = fp }()
 
 	// Shift the frame pointer.
 	vm.fp[0] += Addr(shift[0])
